@@ -20,6 +20,7 @@ def showR {α} (f : α → String) : R α → String
 def freq? (s : String) : Option Freq := Freq.ofLetter? s
 
 def showPeriod (p : Period) : String := p.freq.letter ++ ":" ++ toString p.serial
+def showPL (l : List Period) : String := "[" ++ ",".intercalate (l.map showPeriod) ++ "]"
 
 def endpoint? (s : String) : Option (Option Endpoint) :=
   if s = "-" then some none
@@ -141,6 +142,21 @@ def step (line : String) : String :=
     | some (some (.res p)), some (some (.res q)), some st =>
       showR (fun l => "[" ++ ",".intercalate (l.map showPeriod) ++ "]") (periodsFromUntil p q st)
     | _, _, _ => "bad-op"
+  | ["sfs", a, b, lag, lead] =>   -- spans_from_short_span on the first and last period
+    match endpoint? a, endpoint? b, lag.toInt?, lead.toInt? with
+    | some (some (.res p)), some (some (.res q)), some lag, some lead =>
+      showR (fun (r : List Period × List Period) => showPL r.1 ++ "|" ++ showPL r.2) (spansFromShortSpan p q lag lead)
+    | _, _, _, _ => "bad-op"
+  | ["sfl", a, b, lag, lead] =>   -- spans_from_long_span
+    match endpoint? a, endpoint? b, lag.toInt?, lead.toInt? with
+    | some (some (.res p)), some (some (.res q)), some lag, some lead =>
+      showR (fun (r : List Period × List Period) => showPL r.1 ++ "|" ++ showPL r.2) (spansFromLongSpan p q lag lead)
+    | _, _, _, _ => "bad-op"
+  | ["ext", a, b, lo, hi, pre, app] => match endpoint? a, endpoint? b, lo.toInt?, hi.toInt? with
+    | some (some (.res p)), some (some (.res q)), some lo, some hi =>
+      let r := extendSpan p q lo hi (pre = "1") (app = "1")
+      showPeriod r.1 ++ " " ++ showPeriod r.2
+    | _, _, _, _ => "bad-op"
   | ["speq", a, b, st, a', b', st'] => match endpoint? a, endpoint? b, st.toInt?, endpoint? a', endpoint? b', st'.toInt? with
     | some a, some b, some st, some a', some b', some st' =>
       (match Span.make a b st, Span.make a' b' st' with
